@@ -520,7 +520,14 @@ struct Driver {
         const Stmt& s = w.sc.stmts[id];
         const DyndepEntry* e = w.sc.DyndepFor(id);
         const DyndepFile* dd = s.dyndep.empty() ? nullptr : w.sc.FindDyndep(s.dyndep);
-        if (e && e->restat && dd && dd->producer >= 0 && ran.count(dd->producer)) b.pending_restat.insert(id);
+        // pending at scan time: the producer ran, or something it depends on did
+        // (then it was dirty at scan time even if a restat upstream pruned it later)
+        bool producer_dirty = false;
+        if (dd && dd->producer >= 0) {
+          if (ran.count(dd->producer)) producer_dirty = true;
+          for (int q : w.StmtClosure(dd->producer)) if (ran.count(q)) producer_dirty = true;
+        }
+        if (e && e->restat && producer_dirty) b.pending_restat.insert(id);
       }
       twin->builds.push_back(b);
     } else if (build_no < (int)twin->builds.size()) {
